@@ -46,7 +46,8 @@ def run_case(case):
         acc.step = acounted
         sets = [build(case, engine, 7)]
         if case.get('two'):
-            sets.append(build(case, engine, 8))
+            # a second model / optimizer / loader on the SAME engine, with another loader length (so another sample rate)
+            sets.append(build(dict(case, L=case['L'] + 2, seed=case['seed'] + 1), engine, 8))
         scheds = []
         for (m, o, c, d, Lorig) in sets:
             inner = o.original_optimizer
